@@ -225,6 +225,26 @@ class World:
         elif struct_ == "oversize":
             big = [(1, KEYS[j % len(KEYS)].pub) for j in range(2750)]          # ~ 200 KB of outputs
             all_txs = [R.RTx([(R.NULL32, 0, cb_in_sig)], cb_outs + big)] + txs
+        elif struct_ == "maxsize":
+            # a VALID block whose serialization is exactly MAX_BLOCK_SIZE bytes: the reward is spread over ~2,700 outputs and
+            # the free-form reward data pads the rest
+            def size_with(k, data):
+                outs = [(value - k, miner)] + [(1, KEYS[j % len(KEYS)].pub) for j in range(k)]
+                c = R.RTx([(R.NULL32, 0, ("cb", height, data))], outs)
+                return c, len(R.RBlock(height, R.NULL32, R.NULL32, 0, R.NULL32, 0, (R.NULL32,) * 3, [c] + txs).raw())
+            k0 = (R.MAX_BLOCK_SIZE - size_with(0, b"")[1]) // 73
+            done = False
+            for k in range(k0, k0 - 4, -1):
+                need = R.MAX_BLOCK_SIZE - size_with(k, b"")[1]
+                if 0 <= need <= R.MAX_CB_DATA and k < value:
+                    cb, sz = size_with(k, (cbdata + b"." * need)[:need])
+                    if sz == R.MAX_BLOCK_SIZE:
+                        done = True
+                        break
+            if not done:
+                raise ValueError("cannot pad to the maximum size")
+            self.txs[op["label"] + ".0"] = cb
+            all_txs = [cb] + txs
         self.blocks_last_txs = all_txs
         ts = parent.ts + op.get("dt", 120)
         tsm = hdr.get("ts")
